@@ -120,6 +120,10 @@ def second_use(table, key):
     if zz_lookup(table, key):
         return 1
     return 0
+
+def clear_all(moments, qubits: Iterable[int]):
+    for m in moments:
+        m.discard_all(qubits)
 '''
     good = '''
 def make(a, opt=None):
@@ -197,10 +201,15 @@ def second_use(table, key):
     if zz_lookup(table, key) is not None:
         return 1
     return 0
+
+def clear_all(moments, qubits: Iterable[int]):
+    qubits = frozenset(qubits)
+    for m in moments:
+        m.discard_all(qubits)
 '''
     rel = 'cirq-core/cirq/work/zz_fixture.py'
     base = core.Repo()
-    for src, want in ((bad, {'z_fwd': 1, 'z_drop': 1, 'z_pair': 2, 'z_get': 1, 'z_ctor': 1, 'z_opt': 1, 'z_gen': 1, 'z_memo': 1, 'z_first': 1, 'z_inv': 1, 'z_coord': 1, 'z_none': 1}), (good, {})):
+    for src, want in ((bad, {'z_fwd': 1, 'z_drop': 1, 'z_pair': 2, 'z_get': 1, 'z_ctor': 1, 'z_opt': 1, 'z_gen': 1, 'z_memo': 1, 'z_first': 1, 'z_inv': 1, 'z_coord': 1, 'z_none': 1, 'z_loop': 1}), (good, {})):
         r = core.Repo(overlay={rel: src}, base=base)
         ctx = report.Ctx('C18', 'quick', r)
         general.apply(ctx, 'C18')
